@@ -141,11 +141,17 @@ Section Comm.
     1-3: rewrite !assign_cons, !Hre; reflexivity.
     - (* a struct *)
       change (VStruct n fs) with (rewrap false TInt (VStruct n fs)) in *.
-      rewrite !(assign_rewrap env t false TInt n Hre (fun _ => eq_refl)).
-      apply (sstep_comm env t false TInt n Hre (fun _ => eq_refl)); auto.
+      rewrite !(assign_rewrap env t false TInt n Hre (fun _ => eq_refl) eq_refl).
+      apply (sstep_comm env t false TInt n Hre (fun _ => eq_refl) eq_refl); auto.
       + intros ft Hl H. destruct pr; [contradiction|]. eapply npa_rewrap; eauto.
       + intros ft Hl H. destruct qr; [contradiction|]. eapply npa_rewrap; eauto.
     - (* a pointer *)
+      destruct (is_any u) eqn:Hua.
+      { (* a pointer to an interface is never followed *)
+        rewrite !assign_cons, !Hre. simpl.
+        destruct o as [w|]; [destruct w; simpl; rewrite ?Hua; reflexivity|].
+        destruct (is_nil_path pr), (is_nil_path qr); simpl; try reflexivity;
+          destruct (zero u); simpl; rewrite ?Hua; reflexivity. }
       assert (K : forall n fs,
                  npa env t (VPtr u (Some (VStruct n fs))) (f :: pr) ->
                  npa env t (VPtr u (Some (VStruct n fs))) (g :: qr) ->
@@ -154,8 +160,8 @@ Section Comm.
       { intros n fs Np' Nq'.
         change (VPtr u (Some (VStruct n fs))) with (rewrap true u (VStruct n fs)) in *.
         assert (Hu : true = false -> u = TInt) by discriminate.
-        rewrite !(assign_rewrap env t true u n Hre Hu).
-        apply (sstep_comm env t true u n Hre Hu); auto.
+        rewrite !(assign_rewrap env t true u n Hre Hu Hua).
+        apply (sstep_comm env t true u n Hre Hu Hua); auto.
         + intros ft Hl H. destruct pr; [contradiction|]. eapply npa_rewrap; eauto.
         + intros ft Hl H. destruct qr; [contradiction|]. eapply npa_rewrap; eauto. }
       destruct o as [w|].
@@ -241,6 +247,7 @@ Proof.
     2: { rewrite npa_cons2, Hre in Nq. contradiction. }
     rewrite assign_cons, Hre in Ha. simpl in Ha.
     destruct w as [| | |n fs| |]; try discriminate.
+    destruct (is_any u); [discriminate|].
     destruct (lookup_field env n f) as [[[] ft]|] eqn:Hlf; try discriminate.
     destruct (assign_next _ _ _ _ _ _) as [a|] eqn:Ea; [|discriminate].
     inversion Ha; subst v'. clear Ha.
